@@ -31,6 +31,8 @@ pub struct GenOpts {
     pub bad_sizes: bool,
     /// force first_ttl < max_inflight (avoid the region where nothing is ever sent)
     pub sending_only: bool,
+    /// maximum number of injections per world
+    pub inj_max: usize,
 }
 
 impl Default for GenOpts {
@@ -53,6 +55,7 @@ impl Default for GenOpts {
             late: true,
             bad_sizes: false,
             sending_only: false,
+            inj_max: 8,
         }
     }
 }
@@ -227,6 +230,7 @@ pub fn cfg_strat(opts: &GenOpts) -> BoxedStrategy<(TraceCfg, u64)> {
                 max_rounds: rounds,
                 max_samples,
                 max_flows,
+                target_idx: 0,
             };
             (cfg, unit)
         })
@@ -373,7 +377,7 @@ fn inj_strat(unit: u64) -> BoxedStrategy<InjSpec> {
         1 => (0u16..=600).prop_map(|offset| InjKind::BeforeRound { offset }),
         1 => (0u8..=4).prop_map(|back| InjKind::UnhandledType { back }),
     ];
-    (0u16..=120, 0u64..=30, kind)
+    (prop_oneof![3 => 0u16..=40, 1 => 0u16..=400], 0u64..=30, kind)
         .prop_map(move |(after_send, d, kind)| InjSpec {
             after_send,
             delay_ns: d * unit / 2,
@@ -392,7 +396,7 @@ pub fn world_strat(opts: &GenOpts, unit: u64, round_units: u64) -> BoxedStrategy
         }),
         any::<u64>(),
         (hop_strat(opts, unit, round_units), prop_oneof![3 => Just(TargetKind::Normal), 1 => Just(TargetKind::Refuse)]),
-        if opts.injections { vec(inj_strat(unit), 0..=8).boxed() } else { Just(vec![]).boxed() },
+        if opts.injections { vec(inj_strat(unit), 0..=opts.inj_max).boxed() } else { Just(vec![]).boxed() },
         if opts.costs { prop_oneof![3 => Just((0u64, 0u64)), 1 => (0u64..=3, 0u64..=3)].boxed() } else { Just((0u64, 0u64)).boxed() },
         any::<u64>(),
     )
@@ -410,6 +414,7 @@ pub fn world_strat(opts: &GenOpts, unit: u64, round_units: u64) -> BoxedStrategy
                 send_cost_ns: sc * unit / 8,
                 recv_cost_ns: rc * unit / 8,
                 seed,
+                raw: vec![],
             }
         })
         .boxed()
